@@ -1076,6 +1076,13 @@ impl GlobalInferenceCtx<'_> {
                         return false;
                     }
 
+                    // once an error has been reported the types of the surrounding
+                    // expressions can be arbitrarily off; the panic is only there to catch a
+                    // bad `reinfer_expr` in a program that type checks
+                    if !ctx.diagnostics.is_empty() {
+                        return false;
+                    }
+
                     panic!(
                         "{} #{} : `{}` is not weak replaceable by `{}`",
                         ctx.loc.debug(ctx.interner),
@@ -2694,8 +2701,8 @@ impl GlobalInferenceCtx<'_> {
                                                 // under the next parameter.
                                                 current_param = Some(next_param);
                                             } else {
-                                                // `can_fit_into` should return true for unknowns
-                                                assert!(!arg_ty.is_unknown());
+                                                // (`can_fit_into` returns true for unknowns, so
+                                                // the argument has a known type that doesn't fit)
                                                 // this will just return an error
                                                 self.diagnostics.push(TyDiagnostic {
                                                     kind: TyDiagnosticKind::Mismatch {
